@@ -230,7 +230,10 @@ def check_graph_ops(case):
     L = libif.lib()
     n, gid0 = case["n"], case["gid"]
     fails = []
-    g = L.Graph.decompress(n, gid0)
+    try:
+        g = L.Graph.decompress(n, gid0)
+    except Exception as e:  # noqa: BLE001
+        return [("graph-ops/raised:decompress", f"n={n}: decompress({gid0}) raised {type(e).__name__}({e})", {})]
     adj = lc.adj_from_gid(n, gid0)
 
     def model_edge(i, j, val):
